@@ -967,6 +967,10 @@ func init() {
 		for k := 0; k < 6; k++ {
 			probes = append(probes, Case{Kind: "conc", Fam: "clos", Ar: ar, Note: "conc-probe", Pre: pre, Thr: thr, PSeed: uint64(1000 + k), NoLin: true})
 		}
+		// and with the logical clock and the linearizability check
+		for k := 0; k < 3; k++ {
+			probes = append(probes, Case{Kind: "conc", Fam: "clos", Ar: ar, Note: "conc-probe-lin", Pre: pre, Thr: thr, PSeed: uint64(2000 + k)})
+		}
 	}
 	// callers only, through an :around method
 	cp(1, []string{"Dp0", "Dw0~4"}, rep(5, "C3"), rep(5, "C2"), rep(5, "C3"), rep(5, "C1"))
@@ -978,6 +982,10 @@ func init() {
 	cp(1, []string{"Dp0", "Dp1"}, rep(3, "Dp1", "Rp1", "Dp1", "Db1"), rep(6, "C3"), rep(6, "C1"), rep(6, "C2"))
 	// removal of everything under an :around method (call-next-method finds no next method)
 	cp(1, []string{"Dp0", "Dw1~4"}, rep(4, "Rp0", "Dp0", "Da0"), rep(6, "C3"), rep(6, "C2"), rep(6, "C3"))
+	// the single-method fast path (one primary on t): 0 -> 1 -> 2 -> 1 -> 0 methods while calls are in flight
+	cp(1, nil, rep(3, "Dpt", "Dp1", "Rp1", "Rpt"), rep(6, "C3"), rep(6, "C1"), rep(6, "Cx"), rep(6, "C0"))
+	cp(1, []string{"Dpt"}, rep(3, "Dbt", "Rbt", "Dp2", "Rp2"), rep(6, "C3"), rep(6, "C1"), rep(6, "Cx"))
+	cp(2, []string{"Dptt"}, rep(3, "Dp1t", "Rp1t", "Rptt", "Dptt"), rep(5, "C33"), rep(5, "C0x"), rep(5, "C13"))
 	// two definers, two arguments
 	cp(2, []string{"Dp00", "Db10"}, rep(3, "Da00", "Ra00", "Db00"), rep(3, "Rb10", "Db10", "Dp10"), rep(5, "C33"), rep(5, "C13"), rep(5, "C31"))
 }
